@@ -39,7 +39,8 @@ FLAVOURS = ["serial", "tcp", "aserial", "atcp"]
 def gen(rng, tier, index):
     version = rng.choice(["1.4", "1.5", "2.0", "2.0", "2.1", "2.2", "2.2"])
     # a quarter of the streams are long bursts (several KiB piled up in the OS buffer)
-    n_lines = rng.randint(8, 40) if rng.random() < 0.75 else rng.randint(60, 160)
+    roll = rng.random()
+    n_lines = rng.randint(8, 40) if roll < 0.72 else (rng.randint(60, 160) if roll < 0.95 else rng.randint(280, 420))
     ops = netgen.make_ops(rng, version, n_lines, WEIGHTS, nodes=(1, 3), scenario=0.3)
     stream = bytearray()
     line_ends = []
